@@ -858,9 +858,51 @@ def public_methods(repo: Repo) -> dict[str, Def]:
     return out
 
 
-def norm_dump(node: ast.AST) -> str:
+def scope_locals(d) -> frozenset[str]:
+    """names local to function `d` or to an enclosing function (parameters, assigned names,
+    loop/with/comprehension targets): renaming any of them is not a change of meaning"""
+    out: set[str] = set()
+    while d is not None and getattr(d, "is_func", False):
+        out |= set(d.params)
+        if getattr(d, "vararg", None):
+            out.add(d.vararg)
+        if getattr(d, "kwarg", None):
+            out.add(d.kwarg)
+        glob: set[str] = set()
+        for n in d.own_nodes():
+            if isinstance(n, ast.Name) and isinstance(n.ctx, (ast.Store, ast.Del)):
+                out.add(n.id)
+            elif isinstance(n, (ast.Global, ast.Nonlocal)):
+                glob |= set(n.names)
+            elif isinstance(n, ast.arg):
+                out.add(n.arg)
+        out -= glob
+        d = d.parent
+    return frozenset(out)
+
+
+def anon(node: ast.AST, local: frozenset[str] = frozenset(), limit: int = 80) -> str:
+    """source text of `node` with local names erased (`_`): stable under renaming"""
+    import copy
+
+    node = copy.deepcopy(node)
+    for n in ast.walk(node):
+        if isinstance(n, ast.Name) and n.id in local:
+            n.id = "_"
+        elif isinstance(n, ast.arg) and n.arg in local:
+            n.arg = "_"
+    try:
+        t = ast.unparse(node)
+    except Exception:  # noqa: BLE001
+        t = type(node).__name__
+    t = " ".join(t.split())
+    return t if len(t) <= limit else t[: limit - 3] + "..."
+
+
+def norm_dump(node: ast.AST, local: frozenset[str] = frozenset()) -> str:
     """ast.dump without positions, with local names α-renamed in first-use order and
-    docstrings removed — the digest basis for finding keys."""
+    docstrings removed — the digest basis for finding keys.  `local` = names local to the
+    enclosing function(s): they are α-renamed too, so a finding key survives a rename."""
     import copy
 
     node = copy.deepcopy(node)
@@ -876,12 +918,20 @@ def norm_dump(node: ast.AST) -> str:
                 n.body = n.body[1:] or [ast.Pass()]
     stored = {
         n.id for n in ast.walk(node) if isinstance(n, ast.Name) and isinstance(n.ctx, ast.Store)
-    }
-    for n in ast.walk(node):
+    } | set(local)
+    stored |= {n.arg for n in ast.walk(node) if isinstance(n, ast.arg)}
+    # deterministic first-use order = source order (ast.walk is breadth-first: sort by position)
+    names = sorted(
+        (n for n in ast.walk(node) if isinstance(n, (ast.Name, ast.arg))),
+        key=lambda n: (getattr(n, "lineno", 0), getattr(n, "col_offset", 0)),
+    )
+    for n in names:
         if isinstance(n, ast.Name) and n.id in stored:
             n.id = ren.setdefault(n.id, f"v{len(ren)}")
+        elif isinstance(n, ast.arg) and n.arg in stored:
+            n.arg = ren.setdefault(n.arg, f"v{len(ren)}")
     return ast.dump(node, include_attributes=False)
 
 
-def digest_node(node: ast.AST) -> str:
-    return hashlib.sha1(norm_dump(node).encode()).hexdigest()[:10]
+def digest_node(node: ast.AST, local: frozenset[str] = frozenset()) -> str:
+    return hashlib.sha1(norm_dump(node, local).encode()).hexdigest()[:10]
